@@ -963,3 +963,4 @@ mut("C11", "r14-group-leaves-operand-expected", "database/query/parser.go",
     "C11-R14|database/query.parseAndOr / loop back-edge", comment="reverts fix ce933f7")
 mut("C11", "r14-not-leaves-nothing-expected", "database/query/parser.go",
     "\t\tcase \"not\":\n\t\t\twrapInNot = true\n\t\t\texpectingMore = true", "\t\tcase \"not\":\n\t\t\twrapInNot = true\n\t\t\texpectingMore = false", "C11-R14|database/query.parseAndOr / loop back-edge")
+from_patch("C14", "r11-preput-hooks-outside-lock", "C14-f2", "C14-R11|database.(*Controller).runPostGetHooks ~ database.(*Controller).runPrePutHooks", comment="one-sided edit (round-6 seed C14-f2)")
